@@ -14,7 +14,8 @@ LEVEL = "exploration"
 
 RULE = ("all 62 type expressions of list depth 0..4 (every placement of `!`) x named type kind {Int, Float, String, Boolean, ID, "
         "custom scalar, enum, object, interface, union | input object} x position {response field, variable, input-object "
-        "field, @oneOf member (nullable expressions only)} x schema format {SDL, introspection JSON}; every emitted field / "
+        "field (with schema-level default values), @oneOf member (nullable expressions only), object field whose interface declares "
+        "it without any `!` (selected on the object, on the interface, and on the object inside a variant)} x schema format {SDL, introspection JSON}; every emitted field / "
         "variant type is compared with rule(expr): `T!` -> inner, `[T]` -> Vec<..>, nullable -> Option<..>; built-in scalar "
         "aliases read from the emitted `type X = Y;` items. Every field is distinct and non-trivial when list depth >= 1 or it is non-null")
 
@@ -76,7 +77,16 @@ def build_schema():
     for k, n in OUT_KINDS.items():
         for c in exprs:
             hf.append({"name": "f_%s_%s" % (k, c or "p"), "type": build_type(c, n), "args": [], "deprecated": None})
-    s.add("Holder", {"kind": "object", "implements": [], "fields": hf})
+    # an interface that declares the same fields with every `!` removed: the implementing object legally narrows them
+    # (`[T!]!` is a subtype of `[T]`), and each side must keep its own modifiers
+    def strip_all(t):
+        if t[0] == "nn":
+            return strip_all(t[1])
+        if t[0] == "list":
+            return L(strip_all(t[1]))
+        return t
+    s.add("HolderI", {"kind": "interface", "fields": [dict(f, type=strip_all(f["type"])) for f in hf]})
+    s.add("Holder", {"kind": "object", "implements": ["HolderI"], "fields": hf})
     big, one = [], []
     for k, n in IN_KINDS.items():
         for c in exprs:
@@ -84,9 +94,23 @@ def build_schema():
             if not c.startswith("n") or c == "":
                 if not c.startswith("n"):
                     one.append(["o_%s_%s" % (k, c or "p"), build_type(c, n)])
-    s.add("Big", {"kind": "input", "one_of": False, "fields": big})
+    # default values on input fields (schema-level; they must not change the generated type in either front-end)
+    defaults = {}
+    for fname, t in big:
+        kind = fname.split("_")[1]
+        lit = {"int": "1", "string": '"s"', "boolean": "true", "float": "1.5", "enum": "RED", "id": '"x"'}.get(kind)
+        if lit is not None:
+            d = 0
+            tt = t
+            while tt[0] != "named":
+                if tt[0] == "list":
+                    d += 1
+                tt = tt[1]
+            defaults[fname] = "[" * d + lit + "]" * d
+    s.add("Big", {"kind": "input", "one_of": False, "fields": big, "defaults": defaults})
     s.add("One", {"kind": "input", "one_of": True, "fields": one})
-    s.add("Query", {"kind": "object", "implements": [], "fields": [{"name": "holder", "type": T("Holder"), "args": [], "deprecated": None}]})
+    s.add("Query", {"kind": "object", "implements": [], "fields": [{"name": "holder", "type": T("Holder"), "args": [], "deprecated": None},
+                                                                   {"name": "holderI", "type": T("HolderI"), "args": [], "deprecated": None}]})
     return s, exprs
 
 
@@ -106,7 +130,12 @@ def build_doc(s, exprs):
             vs.append({"name": "v_%s_%s" % (k, c or "p"), "type": build_type(c, n), "default": None})
     vs.append({"name": "big", "type": T("Big"), "default": None})
     vs.append({"name": "one", "type": T("One"), "default": None})
-    op = {"kind": "query", "name": "Q", "vars": vs, "sel": [["field", None, "holder", None, sel]]}
+    # the interface's own (all-nullable) versions, under aliases g_<kind>_<code>, plus the object's again inside a variant (h_..)
+    isel = [["typename"]]
+    for it in sel:
+        isel.append(["field", "g" + it[2][1:], it[2], None, it[4]])
+    isel.append(["inline", "Holder", [["field", "h" + it[2][1:], it[2], None, it[4]] for it in sel]])
+    op = {"kind": "query", "name": "Q", "vars": vs, "sel": [["field", None, "holder", None, sel], ["field", None, "holderI", None, isel]]}
     return {"operations": [op], "fragments": []}
 
 
@@ -143,19 +172,25 @@ def main(run):
                 run.violation({"id": "%s-alias-%s" % (fmt, a), "corpus": "clean"}, "alias %s = %s, expected %s" % (a, aliases.get(a), tgt))
             else:
                 run.held()
-        seen = {"f": 0, "v": 0, "i": 0, "o": 0}
+        seen = {"f": 0, "v": 0, "i": 0, "o": 0, "g": 0, "h": 0}
 
         def check(pos, key, ty, one_of=False):
-            m = re.match(r"^([fvio])_([a-z]+)_([nlp]+)$", key)
+            m = re.match(r"^([fvioghj])_([a-z]+)_([nlp]+)$", key)
             if not m:
                 return
             posc, kind, code = m.groups()
             t = by_code[code]
+            if posc == "g":
+                # selected on the interface itself: the interface's declaration (no `!` anywhere)
+                t = build_type(code.replace("n", "") if code != "p" else "", "@")
+                pos = "interface field (all-nullable declaration)"
+            elif posc == "h":
+                pos = "object field inside a variant of its interface"
             exp = rule(NN(t) if (one_of and t[0] != "nn") else t)
             shape, basename = strip_base(ty)
             run.evaluated()
             seen[posc] += 1
-            gql = (OUT_KINDS if posc == "f" else IN_KINDS)[kind]
+            gql = (OUT_KINDS if posc in ("f", "g", "h") else IN_KINDS)[kind]
             ok = shape == exp
             if ok:
                 if kind in ("object", "interface", "union"):
@@ -183,7 +218,7 @@ def main(run):
                     check("@oneOf member", key, v["payload"][0] if v["payload"] else "", one_of=True)
         n_out, n_in = len(OUT_KINDS) * len(exprs), len(IN_KINDS) * len(exprs)
         n_one = len(s.types["One"]["fields"])
-        for posc, want in (("f", n_out), ("v", n_in), ("i", n_in), ("o", n_one)):
+        for posc, want in (("f", n_out), ("v", n_in), ("i", n_in), ("o", n_one), ("g", n_out), ("h", n_out)):
             run.count("%s:%s" % (fmt, posc), seen[posc])
             if seen[posc] != want:
                 run.violation({"id": "%s-count-%s" % (fmt, posc), "corpus": "clean"}, "expected %d fields at position %s, found %d" % (want, posc, seen[posc]))
